@@ -7,6 +7,31 @@ TB = ("Coq 8.16.1 kernel; axioms as printed by Print Assumptions (allow-list in 
       "tied to /repo only by that correspondence (DESIGN.md section 8)")
 
 CHECKS = {
+ "C08": dict(
+   text="Machine-checked theorems over the model of unify (all terms, all substitutions, any number of steps): every "
+        "successful unification keeps 'following bindings from any term ends' (the binding step is only taken after the "
+        "alias check chain_reaches found that the right operand's chain does not lead back to the variable), hence no "
+        "cycle after any sequence of successful unifications from the empty set; unifying two already aliased variables, "
+        "in either order, returns the substitution set itself. The model is tied to the code by differential execution "
+        "over all short unification sequences among three variables and three constants followed by resolving all three "
+        "variables (a cycle makes that diverge), plus relations checked on the implementation's own results.", ref="7/C08",
+   technique="Coq proof by a generic unify-invariant principle (Proofs/UnifyInv.v, Properties/C08.v) + model-vs-implementation correspondence via extraction"),
+ "C09": dict(
+   text="Machine-checked theorems over the model of unify: x = $_ and $_ = x return the substitution set itself for EVERY "
+        "term x and every set; an argument position holding $_ on either side is skipped by the argument loop; no run of "
+        "unify (single or any sequence from the empty set) ever makes $_ the value of a binding. Tied to the code by "
+        "differential execution on the 119-term universe under 18 priors, sequences with/without their $_ steps, and terms "
+        "against copies masked by $_; the relations of the property are also checked on the implementation's own results.",
+   ref="7/C09",
+   technique="Coq proof (Properties/C09.v: direct lemmas + unify-invariant principle) + model-vs-implementation correspondence via extraction"),
+ "C13": dict(
+   text="Machine-checked theorems over the model of unify: for a built-in function term F whose evaluation yields v, "
+        "unify F t = unify v t (function on the left) and unify t F = unify v t for every t that is a variable, constant, "
+        "complex term or list (function on the right; for constants and variables unify v t = unify t v is proved too). "
+        "Tied to the code by differential execution; the property's own relation (F = T has the same outcome as V = T, on "
+        "either side, V read off the implementation) is checked on the implementation's results on every run.", ref="7/C13",
+   technique="Coq proof (Properties/C13.v) + model-vs-implementation correspondence via extraction + function-vs-value relation on the implementation"),
+
  "C12": dict(
    text="Machine-checked theorems (all argument lists, all substitutions): every finished evaluation of add/subtract/"
         "multiply/divide returns the left-to-right fold of the resolved arguments - in Z with truncating division when "
